@@ -93,6 +93,8 @@ VALUE_IDENTITY = ("clone", "to_vec", "to_owned", "collect", "copied", "cloned", 
 
 FIELD_TY = r"(ark_ff::Fp<P, N>|proto::Fr)"
 FIELD_OP_RX = re.compile(r"<(&'?\w* ?)?" + FIELD_TY + r" as std::ops::(Add|Sub|Mul|Div)(<.*>)?>::(add|sub|mul|div)$")
+GEN_OP_RX = re.compile(r"^std::ops::(Add|Sub|Mul|Div)::(add|sub|mul|div)$")
+GEN_OPA_RX = re.compile(r"^std::ops::(Add|Sub|Mul|Div)Assign::(add|sub|mul|div)_assign$")
 FIELD_OPA_RX = re.compile(r"<" + FIELD_TY + r" as std::ops::(Add|Sub|Mul|Div)Assign(<.*>)?>::(add|sub|mul|div)_assign$")
 
 
@@ -789,14 +791,14 @@ class Engine:
         if re.search(r"^std::result::Result::<T, E>::map_err$", name):
             return ("map_err", V(raw_args[0]))
         # field arithmetic (arkworks Fp)
-        m = FIELD_OP_RX.search(name)
+        m = FIELD_OP_RX.search(name) or GEN_OP_RX.match(name)
         if m:
             a, b = V(raw_args[0]), V(raw_args[1])
             op = m.groups()[-1]
             if op == "div":
                 trace.append(("oblig", "FieldDiv", (a, b), site, None, None))
             return mk_fop(op, a, b)
-        m = FIELD_OPA_RX.search(name)
+        m = FIELD_OPA_RX.search(name) or GEN_OPA_RX.match(name)
         if m:
             dst, b = raw_args[0], V(raw_args[1])
             op = m.groups()[-1]
